@@ -26,14 +26,15 @@ Full == {[ver |-> v, shift |-> sh, method |-> m, enc |-> en, crc |-> cr, attrs |
 Diff(c) == Cardinality({d \in {"method", "enc", "crc", "attrs", "listfile", "tablecomp"} : c[d] # Base[d]})
 \* quick: shift in {0,3,8} x (base configuration for every version; one other dimension changed for V1 and V4)
 InQuick(c) == c.shift \in {0, 3, 8} /\ Diff(c) <= 1 /\ (c.ver \in {1, 4} \/ Diff(c) = 0)
-\* thorough: every (version, shift, method, enc) with the four boolean-ish dimensions rotated through
-\* their 24 combinations, twice
-Opt4 == SetToSeq({<<cr, at, lf, tc>> : cr \in BOOLEAN, at \in Attrs, lf \in BOOLEAN, tc \in BOOLEAN})
-Core == SetToSeq({<<v, sh, m, en>> : v \in Versions, sh \in Shifts, m \in Methods, en \in Encs})
-Rot(j, k) == Opt4[((j * 7 + k * 11 + SeedN) % 24) + 1]
-ThoroughSet == {[ver |-> Core[j][1], shift |-> Core[j][2], method |-> Core[j][3], enc |-> Core[j][4],
-                 crc |-> Rot(j, k)[1], attrs |-> Rot(j, k)[2], listfile |-> Rot(j, k)[3], tablecomp |-> Rot(j, k)[4]] :
-                   j \in 1..Len(Core), k \in 1..2}
+\* thorough: the full product of six of the eight dimensions (version x shift x method x enc x crc x attrs = 7 776
+\* configurations); the pair (listfile, tablecomp) rotates through its four combinations with the coordinate sum +
+\* VERIF_SEED, so that four runs with consecutive seeds enumerate the whole product of the property's quantifier
+\* (31 104 configurations).  (The half product per run was measured: 15 552 archives = 589 139 events took 29 min in
+\* the driver alone on the shared machine at load ~200 -- over the 30 min budget.)
+Idx(c) == c.ver + c.shift + c.method + (CASE c.enc = "plain" -> 0 [] c.enc = "enc" -> 1 [] OTHER -> 2)
+          + (IF c.crc THEN 1 ELSE 0) + (CASE c.attrs = "none" -> 0 [] c.attrs = "crc32" -> 1 [] OTHER -> 2)
+Pair(c) == (IF c.listfile THEN 2 ELSE 0) + (IF c.tablecomp THEN 1 ELSE 0)
+ThoroughSet == {c \in Full : Pair(c) = (Idx(c) + SeedN) % 4}
 \* seed-rotated draws from the full product
 FullSeq == SetToSeq(Full)
 Draws(n) == {FullSeq[((((SeedN % 10007) * 7919) + (j * 104729)) % Len(FullSeq)) + 1] : j \in 1..n}
